@@ -252,6 +252,29 @@ def case_reshape(rng: Any, ctx: Ctx, index: int) -> None:
     xb = apply_monitored(op, rng)
     guarded('C13.roundtrip', lambda: roundtrip_and_matrix(op, xb, 'ReshapeOperator', changes))
 
+    def transposed_reduce() -> None:
+        # reduce() of the lazy transpose, alone and after another operator: same map, same structures (identity only if nothing changes)
+        from furax._base.core import CompositionOperator, IdentityOperator
+        t = op.T
+        for label, e in (('T.reduce', t), ('(A@T).reduce', CompositionOperator([IdentityOperator(t.out_structure()), t]))):
+            r = e.reduce()
+            LOG.evaluated('C13.permutation')
+            if not (dense.struct_eq_loose(r.in_structure(), e.in_structure()) and dense.struct_eq_loose(r.out_structure(), e.out_structure())):
+                LOG.violation('C13', 'C13.permutation', f'ReshapeOperator.{label}/structures', 'reduce() changed the structures of the transposed reshape',
+                              expr=dense.describe(op), result=dense.describe(r))
+                return
+            if changes and type(r).__name__ == 'IdentityOperator':
+                LOG.violation('C13', 'C13.permutation', f'ReshapeOperator.{label}/identity', 'the transpose of a shape-changing reshape was reduced to the identity',
+                              expr=dense.describe(op))
+                return
+        rr = CompositionOperator([t, op]).reduce()
+        xr = gen.rand_input(rng, op.in_structure())
+        back = rr.mv(xr)
+        if any(np.shape(p) != np.shape(q) or not np.array_equal(np.asarray(p), np.asarray(q)) for p, q in zip(jax.tree.leaves(back), jax.tree.leaves(xr))):
+            LOG.violation('C13', 'C13.permutation', 'ReshapeOperator.T@op.reduce/not-the-identity-map', f'(op.T @ op).reduce() = {type(rr).__name__} does not return its input',
+                          expr=dense.describe(op))
+    guarded('C13.permutation', transposed_reduce)
+
     def other_input() -> None:
         # r1.T @ r2 with r1, r2 flattening two different input shapes of the same size: not an identity
         if nl != 1 or len(shapes[0]) < 2:
